@@ -11,6 +11,7 @@ pub fn configs(tier: Tier) -> Vec<Box<dyn Config>> {
     let p = vec![Probe::ManyMut];
     let mut v: Vec<Box<dyn Config>> = Vec::new();
     v.push(Box::new(ZstManyMut));
+    v.push(Box::new(super::widebattery::WideBattery { tier, part: super::widebattery::Part::ManyMut }));
     v.push(Box::new(UnsizedKeys));
     // scripted deep tables: elements displaced into a second probe group, tombstones, full load
     {
